@@ -12,7 +12,7 @@ def main():
     errs = []
     for m in pkgutil.iter_modules(props.__path__):
         P = importlib.import_module("harness.props." + m.name)
-        if hasattr(P, "regenerate"):
+        if hasattr(P, "ID") and hasattr(P, "regenerate"):
             try:
                 run = C.Run(P.ID, "quick", 0)
                 e = P.regenerate(run) or []
